@@ -314,6 +314,9 @@ def ob_mult_log(bits, width, depth, timeout_ms):
     ax = []
     for (c, p, v) in apps:
         ax.append(z3.UGE(LCc(c, p, v), c))                      # contract: never decreases (C05 lemma)
+        ax.append(z3.ULE(zx(LCc(c, p, v), 64) - zx(c, 64), v))  # ... and advances by at most v
+        ax.append(z3.ULE(zx(LCc(LCc(c, p, one), LCp(c, p, one), one), 64) - zx(LCc(c, p, one), 64), one))
+        ax.append(z3.ULE(zx(LCc(c, p, one), 64) - zx(c, 64), one))
         ax.append(z3.Implies(z3.ULE(c, logh.UMAX[bits]), z3.ULE(LCc(c, p, v), logh.UMAX[bits])))
         ax.append(LCc(c, p, two) == LCc(LCc(c, p, one), LCp(c, p, one), one))   # composition (ob_logcounter_compose)
         ax.append(LCp(c, p, two) == LCp(LCc(c, p, one), LCp(c, p, one), one))
